@@ -350,6 +350,8 @@ func (c *compiler) evalUpdateIndex(left, index, value interface{}) error {
 			err = fmt.Errorf("assignment to entry in nil map (%T)", left)
 		case index == nil || !reflect.TypeOf(index).AssignableTo(mapType.Key()):
 			err = fmt.Errorf("cannot use %v (%T) as %s value in map index", index, index, mapType.Key())
+		case !reflect.ValueOf(index).Comparable():
+			err = fmt.Errorf("cannot use %v (%T) as map key: not comparable", index, index)
 		case value != nil && !reflect.TypeOf(value).AssignableTo(mapType.Elem()):
 			err = fmt.Errorf("cannot use '%v' (%T) as %s value in assignment", value, value, mapType.Elem())
 		default:
@@ -408,6 +410,10 @@ func (c *compiler) evalAccessIndex(left, index interface{}, node *ast.IndexExpre
 
 		if !reflect.TypeOf(index).AssignableTo(reflect.TypeOf(left).Key()) {
 			return nil, fmt.Errorf("cannot use %v (%T) as %s value in map index", index, index, reflect.TypeOf(left).Key())
+		}
+
+		if !reflect.ValueOf(index).Comparable() {
+			return nil, fmt.Errorf("cannot use %v (%T) as map key: not comparable", index, index)
 		}
 
 		val := rv.MapIndex(reflect.ValueOf(index))
